@@ -3,6 +3,7 @@ package main
 import (
 	"fmt"
 	"math/big"
+	"strconv"
 	"strings"
 
 	"github.com/db47h/decimal"
@@ -601,6 +602,10 @@ func c12ScanDifferential(c *hx.Ctx, s string) {
 // literal must be rejected, below it accepted - and an accepted one is inexact (2^k is never a power of ten) and
 // saturates with the accuracy of an overflow / underflow.
 func c12RangeBinary(c *hx.Ctx, r *hx.RNG) {
+	if r.Chance(12) {
+		c12RangeMixed(c, r)
+		return
+	}
 	two := big.NewInt(2)
 	anchors := []*big.Int{
 		new(big.Int).Exp(two, big.NewInt(31), nil), new(big.Int).Exp(two, big.NewInt(31), nil), new(big.Int).Exp(two, big.NewInt(32), nil),
@@ -744,6 +749,80 @@ func c12RangeBinary(c *hx.Ctx, r *hx.RNG) {
 		}
 		if got.Acc == 0 || (wantAcc != 0 && got.Acc != wantAcc) {
 			c.Violate("wrong-acc", fmt.Sprintf("%s: stored %s with Acc()=%d: the value is not representable exactly", what, got, got.Acc), "")
+		}
+	}
+}
+
+// c12RangeMixed: a binary or octal mantissa with a fraction and a *decimal* exponent at the ends of the range
+// ("0b1001.1e2147483646" = 9.5e2147483646). The value m x 2^-f x 10^e = (m x 5^f) x 10^(e-f) is an exact decimal: the
+// literal must be accepted when that value's leading digit lies in the range, and stored correctly rounded.
+func c12RangeMixed(c *hx.Ctx, r *hx.RNG) {
+	pre, alpha, bits := "0b", "01", int64(1)
+	if r.Bool() {
+		pre, alpha, bits = "0o", "01234567", 3
+	}
+	nd := r.Range(2, 24)
+	ds := make([]byte, nd)
+	for i := range ds {
+		ds[i] = alpha[r.Intn(len(alpha))]
+	}
+	if ds[0] == '0' {
+		ds[0] = '1'
+	}
+	k := r.Intn(nd) // at least one fractional digit
+	m, _ := new(big.Int).SetString(string(ds), int(1<<uint(bits)))
+	f := int64(nd-k) * bits
+	coef := new(big.Int).Mul(m, new(big.Int).Exp(big.NewInt(5), big.NewInt(f), nil))
+	// aim the exponent so that the value's leading digit lands within a few places of a range end
+	end := []int64{oracle.MaxExp, oracle.MinExp}[r.Intn(2)]
+	e := end - oracle.Digits(coef) + f + int64(r.Range(-12, 12))
+	neg := r.Bool()
+	text := map[bool]string{true: "-", false: ""}[neg] + pre + string(ds[:k]) + "." + string(ds[k:]) + "e" + strconv.FormatInt(e, 10)
+	what := fmt.Sprintf("Parse(%q, 0)", text)
+	c.Note(what)
+	if c.Verbose {
+		fmt.Println("case:", what)
+	}
+	lead := oracle.Digits(coef) + e - f
+	inRange := lead >= oracle.MinExp && lead <= oracle.MaxExp
+	mode := r.Mode()
+	p := int64(r.Range(1, 45))
+	z := usedRecv(r, p, mode)
+	var res *decimal.Decimal
+	var err error
+	pi := hx.Try(func() { res, _, err = z.Parse(text, 0) })
+	cls := "range-mixed/value-out-of-range"
+	if inRange {
+		cls = "range-mixed/value-in-range"
+	}
+	c.Eval(hx.HashStr(what), true, cls)
+	if c.WantSample(cls) {
+		c.Sample(cls, what)
+	}
+	if pi != nil {
+		c.Violate("panic", fmt.Sprintf("%s: %s panic %q at %s", what, pi.Class, pi.Text, pi.Stack), "")
+		return
+	}
+	if err != nil && res != nil {
+		c.Violate("non-nil-result-with-error", what, "")
+		return
+	}
+	if !inRange {
+		return // rejected, or saturated: both are defensible for a value the type cannot hold
+	}
+	if err != nil {
+		kf := ""
+		if oracle.Digits(m)+e > oracle.MaxExp {
+			kf = "binary_mantissa_decimal_exponent_intermediate_overflow" // D35: the integer mantissa m x 10^e is range-checked before the division by 2^f
+		}
+		c.Violate("exponent-range", fmt.Sprintf("%s: rejected (%v) although the value %se%d is representable", what, err, coef, e-f), kf)
+		return
+	}
+	o := oracle.Outcome{Ex: oracle.ExDec{Neg: neg, Coef: coef, Exp: e - f}}
+	got := hx.Snapshot(res)
+	if valueVerdict(c, what, o, got, p, mode, "") {
+		if _, am := o.Check(got.V, got.Acc, p, mode); am != "" {
+			c.Violate("wrong-acc", what+": "+am, "")
 		}
 	}
 }
